@@ -1017,7 +1017,7 @@ void gen_c08(Gen &g) {
   long target;
   unsigned tw = (unsigned)r.below(10);
   int maxq = g.thorough ? 8 : 4;
-  const bool huge = r.chance(1, g.thorough ? 300 : 1500);  // hundreds of growth steps: page-alignment coincidences of the mapping sizes
+  const bool huge = r.chance(1, g.thorough ? 300 : 4000);  // hundreds of growth steps: page-alignment coincidences of the mapping sizes
   if (huge) {
     maxq = 280;
     p.world.step_budget = 2000000000L;
